@@ -72,6 +72,29 @@ def m_fcntl(I, fn, n, args, st):
     return [(failed(st, fn, n), fs(-1)), (st, I.nonneg())]
 
 
+def m_dup(I, fn, n, args, st):
+    """dup(): the copy gets the LOWEST free descriptor number.  In the forked child every descriptor outside the keep list has
+    been closed (C11), so a number in 0..2 that holds none of the handles is free and is what dup() returns; otherwise the
+    copy lands on some number >= 3.  The copy never has close-on-exec."""
+    s = st.copy()
+    src = one(args[0])
+    cur = tab_get(s, src) if src is not None else None
+    if cur is None:
+        s.mon["imprecise"] = "dup(%s)" % show(args[0])
+        return [(failed(st, fn, n), fs(-1)), (s, I.nonneg())]
+    free = [k for k in LOW if tab_get(s, k) is None or str(tab_get(s, k)[0]).startswith("parent's fd")]
+    if free:
+        new = free[0]
+    else:
+        k = 0
+        while tab_get(s, H("dup%d" % k)) is not None:
+            k += 1
+        new = H("dup%d" % k)
+    tab_set(s, new, (cur[0], False))
+    ev(I, "fd-create", fn, n, ("dup", new, args[0]), s)
+    return [(failed(st, fn, n), fs(-1)), (s, fs(new))]
+
+
 def o_cloexec(I, fn, n, args, st):
     ev(I, "cloexec", fn, n, (args[0], args[1]), st)
     s = st.copy()
@@ -169,7 +192,7 @@ def analyse(ctx, prog):
     ov = dict(S.HEAP_HELPERS)
     ov["process_fork"] = o_fork_child_only
     ov["handle_cloexec"] = o_cloexec
-    I = new_interp(prog, overrides=ov, extra_models={"dup2": m_dup2, "fcntl": m_fcntl, "close": m_close_tab})
+    I = new_interp(prog, overrides=ov, extra_models={"dup2": m_dup2, "dup": m_dup, "fcntl": m_fcntl, "close": m_close_tab})
     I.K = sorted(set(I.K) | {1030, 0, 1, 2, 3})
     I.Kset = set(I.K)
     I.TOP_INT = frozenset(I.K) | {"NEG", "POS"}
